@@ -24,6 +24,7 @@ type c15Loc struct {
 	RespHdr   [][2]string
 	Query     [][2]string
 	AE        string
+	H2C       bool
 	rewriteFn func(path string) string
 }
 
@@ -55,6 +56,8 @@ func c15Locations() []c15Loc {
 		{Prefix: "/hdr/", ReqHdr: [][2]string{{"X-Added-Req", "r1"}, {"X-Multi", "added"}}, RespHdr: [][2]string{{"X-Added-Resp", "p1"}, {"X-Resp-Multi", "added"}}},
 		{Prefix: "/qs/", Query: [][2]string{{"added", "1"}, {"k", "extra"}}},
 		{Prefix: "/ae/", AE: "gzip"},
+		// the same origin reached over HTTP/2 without TLS (upstream option enableH2C)
+		{Prefix: "/h2c/", H2C: true},
 	}
 }
 
@@ -97,7 +100,7 @@ func c15Gen(rnd *rand.Rand, i int, locs []c15Loc) (c15Case, c15Loc) {
 		} else {
 			path += "other/" + fmt.Sprint(i)
 		}
-	case "/plain/", "/hdr/", "/ae/":
+	case "/plain/", "/hdr/", "/ae/", "/h2c/":
 		path += seg() + fmt.Sprintf("/%d", i)
 		if rnd.Intn(3) == 0 {
 			path += []string{"/a%2Fb", "/sp%20ace", "/plus+sign", "/caf%C3%A9", "/semi;colon=1"}[rnd.Intn(5)]
@@ -182,6 +185,16 @@ func c15CondHeaders(c c15Case) [][2]string {
 }
 
 func c15CheckForward(r *hx.Run, c c15Case, l c15Loc, f *hx.Fetch, res *hx.Result, sent http.Header, body []byte, status string) bool {
+	if strings.HasPrefix(f.Proto, "HTTP/2") {
+		r.Add("upstream_requests_seen_over_http2", 1)
+		if !l.H2C {
+			r.Violate("upstream_protocol", map[string]string{"location": l.Prefix}, "request reached the origin over HTTP/2 although the upstream is not configured for h2c", nil, c)
+			return false
+		}
+	} else if l.H2C {
+		r.Violate("upstream_protocol", map[string]string{"location": l.Prefix}, "upstream configured with enableH2C was contacted over "+f.Proto, nil, c)
+		return false
+	}
 	cs := map[string]interface{}{"case": c, "request_status_label": status}
 	fail := func(kind, text string) bool {
 		r.Violate(kind, map[string]string{"location": l.Prefix}, text, map[string]interface{}{"origin_saw": map[string]interface{}{"method": f.Method, "uri": f.URI, "header": f.Header, "body_len": len(f.Body)}, "client": res.Brief()}, cs)
@@ -277,21 +290,25 @@ func sortedValues(v url.Values) []string {
 }
 
 func c15(r *hx.Run) {
-	r.Rule = "generated cases on eight locations (no change, the two documented rewrite forms, a literal swap, a two-rule rewrite chain, added request+response headers, added query parameters, upstream Accept-Encoding override): methods GET/HEAD/POST/PUT/DELETE/PATCH, bodies 0..1 MiB, multi-valued/lower-case/credential headers, queries with repeated keys, escapes and value-less parameters, escaped paths; conditional (matching/non-matching ETag and Last-Modified) and Range (first bytes, suffix, multi, If-Range) headers on cold, hit and hit-for-pass keys against an origin built on http.ServeContent; client A's request is followed by a plain client B. Compared: what the origin logged vs the reference transformation, the client's response vs origin response + configured headers, B never receives 304/206/partial. Non-trivial/distinct = (location, method, conditional kind, key state, cacheable)."
+	r.Rule = "generated cases on nine locations (one reaching the origin over h2c, no change, the two documented rewrite forms, a literal swap, a two-rule rewrite chain, added request+response headers, added query parameters, upstream Accept-Encoding override): methods GET/HEAD/POST/PUT/DELETE/PATCH, bodies 0..1 MiB, multi-valued/lower-case/credential headers, queries with repeated keys, escapes and value-less parameters, escaped paths; conditional (matching/non-matching ETag and Last-Modified) and Range (first bytes, suffix, multi, If-Range) headers on cold, hit and hit-for-pass keys against an origin built on http.ServeContent; client A's request is followed by a plain client B. Compared: what the origin logged vs the reference transformation, the client's response vs origin response + configured headers, B never receives 304/206/partial. Non-trivial/distinct = (location, method, conditional kind, key state, cacheable)."
 	r.Assume = []string{"malformed queries, If-Match/412, X-Forwarded-For, User-Agent and the upstream Accept-Encoding when the client sent none (Go's transport adds gzip itself) are not judged", "conditional headers on a cold uncacheable fetch are not judged (pike cannot know cacheability beforehand)", "304 for a conditional HEAD is not demanded (the fresh middleware skips body-less responses; 200 is a correct answer)"}
 	rnd := rand.New(rand.NewSource(r.Seed))
 	locs := c15Locations()
 	port := hx.FreePorts(1)[0]
 	w := newWorldCfg(r, 1, true, func(origins []string) *config.PikeConfig {
 		cfg := &config.PikeConfig{
-			Caches:    []config.CacheConfig{{Name: "c15", Size: 100000, HitForPass: "5m"}},
-			Upstreams: []config.UpstreamConfig{{Name: "u", Servers: []config.UpstreamServerConfig{{Addr: origins[0]}}}, {Name: "uae", AcceptEncoding: "gzip", Servers: []config.UpstreamServerConfig{{Addr: origins[0]}}}},
+			Caches: []config.CacheConfig{{Name: "c15", Size: 100000, HitForPass: "5m"}},
+			Upstreams: []config.UpstreamConfig{{Name: "u", Servers: []config.UpstreamServerConfig{{Addr: origins[0]}}}, {Name: "uae", AcceptEncoding: "gzip", Servers: []config.UpstreamServerConfig{{Addr: origins[0]}}},
+				{Name: "uh2c", EnableH2C: true, HealthCheck: "/ping", Servers: []config.UpstreamServerConfig{{Addr: origins[0]}}}},
 		}
 		var names []string
 		for i, l := range locs {
 			lc := config.LocationConfig{Name: fmt.Sprintf("l%d", i), Upstream: "u", Prefixes: []string{l.Prefix}}
 			if l.AE != "" {
 				lc.Upstream = "uae"
+			}
+			if l.H2C {
+				lc.Upstream = "uh2c"
 			}
 			if l.Rewrite != "" {
 				lc.Rewrites = strings.Split(l.Rewrite, ";")
@@ -308,7 +325,7 @@ func c15(r *hx.Run) {
 			cfg.Locations = append(cfg.Locations, lc)
 			names = append(names, lc.Name)
 		}
-		cfg.Servers = []config.ServerConfig{{Addr: srvAddr(port), Locations: names, Cache: "c15"}}
+		cfg.Servers = []config.ServerConfig{{Addr: srvAddr(port), Locations: names, Cache: "c15", LogFormat: "{remote} {when-iso} {:proxyTarget} {method} {uri} {proto} {status} {<x-status} {size-human} {referer} {userAgent} {>x-req-id} {~sid}"}}
 		return cfg
 	})
 	defer w.Farm.Close()
